@@ -334,7 +334,8 @@ def c03_probes():
 
 
 def c05_probes():
-    return [_probe(G('pl_C05_probe', 'civil', harness='pl_C05_probe', kind='lemma', replace=['ct_second_plus', 'ct_second_minus'], timeout=600))]
+    return [_probe(G('pl_C05_probe', 'civil', harness='pl_C05_probe', kind='lemma', replace=['ct_second_plus', 'ct_second_minus'], timeout=600)),
+            _probe(G('pl_C05_probe_month', 'civil', harness='pl_C05_probe_month', kind='lemma', replace=['ct_month_plus', 'ct_month_minus'], timeout=600))]
 
 
 _c03_goals = PROPERTIES['C03']['goals']
